@@ -13,7 +13,7 @@
 From Coq Require Import List Bool Arith ZArith Permutation Sorted QArith Qround.
 From DV Require Import Base.PyList Base.C06_Py Model.C06_Select.
 From DV Require Import Proofs.C06_Sort Proofs.C06_Basic Proofs.C06_Roulette Proofs.C06_SUS
-  Proofs.C06_Lexicase Proofs.C06_DCD Proofs.C06_Safety.
+  Proofs.C06_Lexicase Proofs.C06_DCD Proofs.C06_Safety Proofs.C06_More.
 Import ListNotations.
 
 (* ------------------------------------------------------------------ selRandom *)
@@ -287,6 +287,62 @@ Theorem C06_selTournamentDCD_no_raise : forall inds k ds e,
   (k <= length inds)%nat -> (k mod 4 = 0)%nat -> selTournamentDCD inds k ds <> Raise e.
 Proof. exact selTournamentDCD_no_raise. Qed.
 Print Assumptions C06_selTournamentDCD_no_raise.
+
+(* ------------------------------------------------------------------ tie-breaking, dominance, totality *)
+(* among equally good aspirants the FIRST sampled one wins (max(key=) returns the first maximum):
+   everything sampled before the winner is strictly worse *)
+Theorem C06_tournament_first_max : forall aspirants ds w rest,
+  best_of aspirants ds = Ok w rest ->
+  exists l1 l2, aspirants = l1 ++ w :: l2 /\ Forall (fun x => f_lt x w = true) l1.
+Proof. exact best_of_first. Qed.
+Print Assumptions C06_tournament_first_max.
+
+(* Fitness.dominates as used by selTournamentDCD: no worse everywhere, better somewhere *)
+Theorem C06_dominates : forall a b,
+  dominates a b = true <->
+  Forall (fun p => snd p <= fst p) (zip (wv a) (wv b)) /\ Exists (fun p => snd p < fst p) (zip (wv a) (wv b)).
+Proof. exact dominates_spec. Qed.
+Print Assumptions C06_dominates.
+
+(* the binary tournament of selTournamentDCD: dominance, then larger crowding distance, then a coin *)
+Theorem C06_DCD_tourn_rule : forall x y ds z rest, tourn x y ds = Ok z rest ->
+  (dominates x y = true -> z = x /\ rest = ds) /\
+  (dominates x y = false -> dominates y x = true -> z = y /\ rest = ds) /\
+  (dominates x y = false -> dominates y x = false ->
+     (cd_lt (cd x) (cd y) = true -> z = y /\ rest = ds) /\
+     (cd_lt (cd x) (cd y) = false -> cd_lt (cd y) (cd x) = true -> z = x /\ rest = ds) /\
+     (cd_lt (cd x) (cd y) = false -> cd_lt (cd y) (cd x) = false ->
+        exists u, ds = DRandom u :: rest /\ 0 <= u /\ u < 1 /\ (u <= 1 # 2 -> z = x) /\ (1 # 2 < u -> z = y))).
+Proof. exact tourn_rule. Qed.
+Print Assumptions C06_DCD_tourn_rule.
+
+(* totality: every draw log that CPython's random can produce is accepted by the model (answer Ok),
+   so the theorems above are not vacuous for any seed *)
+Theorem C06_selRandom_total : forall inds idxs rest,
+  Forall (fun i => i < length inds)%nat idxs ->
+  selRandom inds (length idxs) (map (DChoice (length inds)) idxs ++ rest) = Ok (pick inds idxs) rest.
+Proof. exact selRandom_total. Qed.
+Print Assumptions C06_selRandom_total.
+
+Theorem C06_selTournament_total : forall inds ts (chunks : list (list nat)) rest,
+  (1 <= ts)%nat ->
+  Forall (fun ch => length ch = ts /\ Forall (fun i => i < length inds)%nat ch) chunks ->
+  exists out, selTournament inds (length chunks) ts
+                (concat (map (map (DChoice (length inds))) chunks) ++ rest) = Ok out rest.
+Proof. exact selTournament_total. Qed.
+Print Assumptions C06_selTournament_total.
+
+Theorem C06_selRoulette_total : forall w inds us rest,
+  Forall (fun x => 0 < val0 w x) inds -> Forall (fun u => 0 <= u /\ u < 1) us ->
+  exists out, selRoulette w inds (length us) (map DRandom us ++ rest) = Ok out rest.
+Proof. exact selRoulette_total. Qed.
+Print Assumptions C06_selRoulette_total.
+
+Theorem C06_selSUS_total : forall w inds k u rest,
+  Forall (fun x => 0 < val0 w x) inds -> inds <> [] -> (0 < k)%nat -> 0 <= u -> u < 1 ->
+  exists out, selSUS w inds k (DRandom u :: rest) = Ok out rest.
+Proof. exact selSUS_total. Qed.
+Print Assumptions C06_selSUS_total.
 
 (* ------------------------------------------------------------------ non-vacuity *)
 (* concrete populations and draw logs on which every operator answers Ok (so the hypotheses
